@@ -169,6 +169,8 @@ TABLE = [
     dict(fn='hyp1f2', args=lambda p: [(a, b, c, z) for a in PAR_S(p) for b in BPAR(p)[:2] for c in (R(3, 2), R(3)) for z in ZALL(p)[::3]], budget=30),
     dict(fn='hyp2f0', args=lambda p: [(a, b, z) for a in (R(-3), R(1), R(1, 2)) for b in (R(-2), R(1, 2), R(2)) for z in (R(-1, 4), R(1, 8), R(-1, 64), (R(0), R(1, 8)))], budget=30),
     dict(fn='hyp2f1', args=lambda p: [(a, b, c, z) for a in PAR(p)[::2] for b in PAR_S(p)[:3] for c in BPAR(p)[:3] for z in ZALL(p)[:10]], anchors=[('Euler', a_euler)], budget=30),
+    # the region near exp(+-i pi/3) that no linear transformation covers, with parameters large enough for heavy cancellation
+    dict(fn='hyp2f1', args=lambda p: [(a, b, R(5, 2), z) for a, b in ((R(-81, 2), R(-141, 4)), (R(-161, 2), R(-241, 4)), (R(51, 2), R(-121, 4))) for z in ((R(1, 2), R(7, 8)), (R(1, 2), R(-7, 8)), (R(9, 16), R(55, 64)))], budget=60, maxprec=200),
     dict(fn='hyp2f1', args=lambda p: [(R(1), R(1), R(2), z) for z in (R(-3), R(9, 8), R(1, 2), R(-1), (R(1, 2), R(7, 8)), (R(1, 2), R(55, 64)))] + [(R(1, 2), R(1, 3 if False else 4), R(3, 2), z) for z in (R(1), R(-1), R(255, 256))], budget=40),
     dict(fn='hyp2f2', args=lambda p: [(R(1), a, R(3, 2), b, z) for a in PAR_S(p)[:3] for b in (R(2), R(5, 2)) for z in ZALL(p)[::3]], budget=30),
     dict(fn='hyp2f3', args=lambda p: [(R(1), a, R(3, 2), b, R(3), z) for a in PAR_S(p)[:2] for b in (R(2), R(5, 2)) for z in ZALL(p)[::3]], budget=30),
@@ -186,6 +188,9 @@ TABLE = [
     dict(fn='jacobi', args=lambda p: [(n, a, b, x) for n in (R(3), R(5, 2)) for a in (R(1, 2), R(2)) for b in (R(3, 2), R(-1, 2)) for x in (R(1, 4), R(-1, 2), R(3))], budget=30),
     dict(fn='gegenbauer', args=lambda p: [(R(5, 2), a, x) for a in (R(1, 2), R(2)) for x in (R(1, 4), R(-1, 2), R(3))], budget=30),
     dict(fn='hermite', args=lambda p: [(n, x) for n in (R(5, 2), R(-2), R(1, 2)) for x in (R(1, 4), R(-3, 2), R(10), (R(1), R(1)))], budget=30),
+    # arguments within 2^-24 of a zero of H_n / D_n (24-bit approximations of sqrt(1/2), sqrt(3/2), sqrt(3), 1): the value is small but well defined
+    dict(fn='hermite', args=lambda p: [(R(2), R(11863283, 1 << 24)), (R(2), R(-11863283, 1 << 24)), (R(3), R(20547809, 1 << 24)), (R(4), R(8790853, 1 << 24))], budget=30, bound=12),
+    dict(fn='pcfd', args=lambda p: [(R(3), R(29058991, 1 << 24)), (R(2), R(16777217, 1 << 24)), (R(3), R(-29058991, 1 << 24))], budget=30, bound=12),
     dict(fn='laguerre', args=lambda p: [(n, a, x) for n in (R(5, 2), R(-3, 2)) for a in (R(0), R(1, 2)) for x in (R(1, 4), R(5), R(-3, 2))], budget=30),
     dict(fn='spherharm', args=lambda p: [(l, m, t, ph) for l, m in ((2, 1), (3, -2), (0, 0), (5, 5)) for t in (R(1, 2), R(5, 2)) for ph in (R(1, 4), R(3))], budget=30),
     dict(fn='pcfd', args=pairs(lambda p: [R(1, 2), R(2), R(-3, 2), R(-1)], lambda p: [R(1, 4), R(3, 2), R(-2), R(10), (R(1), R(1))]), budget=30),
